@@ -2,6 +2,7 @@ package main
 
 import (
 	"bufio"
+	"encoding/hex"
 	"encoding/json"
 	"flag"
 	"fmt"
@@ -43,6 +44,8 @@ func cmdGen(args []string) {
 			b = g.behC08()
 		case "C17":
 			b = g.behC17()
+		case "C13":
+			b = g.behC13()
 		default:
 			if fn, ok := genFns[*prop]; ok {
 				b = fn(g)
@@ -493,6 +496,80 @@ func (g *gen) behC17() M {
 			st := M{"id": id, "cols": g.cols(1), "oids": []any{}, "prog": []any{g.row("ok", 1), M{"op": "ret", "r": "err", "err": g.richErr()}}}
 			steps = append(steps, send(M{"t": "Q", "q": M{"id": id, "parse": "ok", "stmts": []any{st}}}))
 		}
+	}
+	return M{"cfg": baseCfg(), "steps": steps}
+}
+
+// behC13: COPY-in sessions: random column counts/format, random chunk
+// payloads (binary, up to 20 KiB), random handler stopping points, stray COPY
+// messages afterwards, simple and extended protocol.
+func (g *gen) behC13() M {
+	steps := []any{startup("u")}
+	rounds := 1 + g.rng.Intn(3)
+	for r := 0; r < rounds; r++ {
+		g.id++
+		id := g.id
+		nc := 1 + g.rng.Intn(3)
+		if g.chance(0.05) {
+			nc = 0
+		}
+		nreads := g.rng.Intn(8)
+		prog := []any{M{"op": "copyin", "fmt": g.rng.Intn(2)}}
+		for i := 0; i < nreads; i++ {
+			prog = append(prog, M{"op": "copyread", "onerr": "ret"})
+		}
+		switch g.rng.Intn(4) {
+		case 0:
+			prog = append(prog, M{"op": "ret", "r": "err", "err": g.simpleErr()})
+		default:
+			prog = append(prog, M{"op": "complete", "tag": "COPY " + g.text(4)}, M{"op": "ret", "r": "nil"})
+		}
+		st := M{"id": id, "cols": g.cols(nc), "oids": []any{}, "prog": prog}
+		q := M{"id": id, "parse": "ok", "stmts": []any{st}}
+		ext := g.chance(0.3)
+		if ext {
+			steps = append(steps, send(M{"t": "P", "name": "", "q": q, "noids": 0}),
+				send(M{"t": "B", "portal": "", "stmt": "", "pfmt": []any{}, "params": []any{}, "rfmt": []any{}}),
+				send(M{"t": "E", "portal": "", "max": 0}))
+		} else {
+			steps = append(steps, send(M{"t": "Q", "q": q}))
+		}
+		nm := g.rng.Intn(10)
+		for i := 0; i < nm; i++ {
+			var m M
+			switch g.rng.Intn(12) {
+			case 0:
+				m = M{"t": "c"}
+			case 1:
+				m = M{"t": "f"}
+			case 2:
+				m = M{"t": "H"}
+			case 3:
+				m = M{"t": "S"}
+			case 4:
+				if g.chance(0.3) {
+					g.id++
+					m = M{"t": "Q", "q": M{"id": g.id, "parse": "ok", "stmts": []any{M{"id": g.id, "cols": []any{}, "oids": []any{}, "prog": []any{M{"op": "complete", "tag": "X"}, M{"op": "ret", "r": "nil"}}}}}}
+				} else {
+					m = M{"t": "U"}
+				}
+			default:
+				n := g.rng.Intn(64)
+				if g.chance(0.1) {
+					n = 4000 + g.rng.Intn(16000)
+				}
+				b := make([]byte, n)
+				g.rng.Read(b)
+				m = M{"t": "d", "_hex": hex.EncodeToString(b)}
+			}
+			stp := send(m)
+			if g.chance(0.4) {
+				stp["nowait"] = true
+			}
+			steps = append(steps, stp)
+		}
+		// make sure the COPY is over before the next round: CopyDone, then Sync
+		steps = append(steps, send(M{"t": "c"}), send(M{"t": "c"}), send(M{"t": "S"}))
 	}
 	return M{"cfg": baseCfg(), "steps": steps}
 }
